@@ -1072,6 +1072,41 @@ func flushToBankEnd(g *vf.Rng, calls []hcall, listing bool) []hcall {
 // genFarHistory builds a short program that spans almost a whole bank: a
 // label reference whose target is tens of thousands of bytes away (around the
 // +-32 KiB and +-64 KiB marks), with the base offset small enough to fit.
+// genDenseRefs: one label with short branches packed tightly on both sides of it - as many as fit in
+// range, one fewer, one more - and a few more references elsewhere: the number of references to a
+// label is an input like any other (64 two-byte branches fill the reach behind a label exactly).
+func genDenseRefs(g *vf.Rng, listing bool) (calls []hcall, base string, dist map[string]bool) {
+	h := &histGen{g: g, o: histOpts{listing: listing, withRefs: true}, sh: newShadow(listing), dist: map[string]bool{}}
+	base = "dense-unset"
+	if g.Bool() {
+		h.add(hcall{Op: "setbase", Arg: uint32(g.Intn(256))<<16 | uint32(g.Intn(0x8000))})
+		base = "dense-set"
+	}
+	l := h.newLabel()
+	before := []int{0, 1, 7, 8, 9, 63, 64, 64, 64, 65, 127}[g.Intn(11)]
+	after := []int{0, 1, 7, 8, 9, 62, 63, 64, 64, 64, 65, 128}[g.Intn(12)]
+	for i := 0; i < before; i++ {
+		h.branch(l)
+	}
+	h.add(hcall{Op: "label", S: l})
+	for i := 0; i < after; i++ {
+		h.branch(l)
+	}
+	// ... and a few more, right behind the packed ones or a little further on
+	for n := g.Intn(4); n > 0; n-- {
+		if g.Bool() {
+			h.add(hcall{Op: "data", Data: g.Bytes(g.Intn(6))})
+		}
+		if g.Intn(3) == 0 {
+			h.add(hcall{Op: "ins", M: emByName["JMP_abs"], S: l})
+		} else {
+			h.branch(l)
+		}
+	}
+	h.dist[fmt.Sprintf("dense-%d-%d", before, after)] = true
+	return h.calls, base, h.dist
+}
+
 func genFarHistory(g *vf.Rng, listing bool) (calls []hcall, base string, dist map[string]bool) {
 	h := &histGen{g: g, o: histOpts{listing: listing, withRefs: true}, sh: newShadow(listing), dist: map[string]bool{}}
 	off := []int{-1, 0x0000, 0x0010, 0x007E, 0x0100}[g.Intn(5)]
